@@ -13,7 +13,8 @@ CLAIMED = {
              "shown to re-establish the representation invariant wf_vnadata from ANY well-formed object, so the "
              "model holds after every call history by induction.  Values, indices, types are fully symbolic; "
              "shapes are bounded (<=3x3x3 logical, <=4/10/4 allocated) and, for the allocating operations, "
-             "enumerated concretely: bounded proof, not an unbounded one.",
+             "enumerated concretely: bounded proof, not an unbounded one.  vnadata_convert in place (N x N -> Zin reshapes the "
+             "object) re-establishes the same invariant, vacated cells included (in-place jobs of C05 re-run here).",
         note="bounded shapes; double complex compiled as double (imaginary part dropped); z0 union compiled as "
              "struct; _vnaerr_verror by contract stub; malloc never fails here (C12); own memcpy/memset/memmove "
              "models because CBMC 6.11's are wrong for symbolic lengths",
@@ -30,6 +31,8 @@ CLAIMED["C10"] = dict(
          "frequency range of a correlated parameter is the intersection of its correlate's range and its sigma grid; the "
          "re-check of standards added BEFORE the frequency vector (_vnacal_new_check_all_frequency_ranges) reaches the "
          "parameter whatever bucket it hashes to; a single noise point is accepted whatever the (unused) frequency says. "
+         "the look-up every vnacal_new_add_* call makes when the frequencies are already known (_vnacal_new_get_parameter: vector parameter, "
+         "correlated parameter with a short sigma grid, correlated parameter over a short vector guess) obeys the same three clauses. "
          "The segment search of _vnacal_rfi is closed by DFCC loop contracts for any number of iterations "
          "(bracketing postcondition, termination). Exactness at the knots is proved for the spline evaluator "
          "(any coefficients) and for _vnacal_rfi with up to 4 knots and any hint: bounded in the number of "
@@ -48,6 +51,7 @@ CLAIMED["C16"] = dict(
          "(add/replace, delete, find, get_*, get_calibration_end, alloc/make_scalar/make_unknown, "
          "delete_parameter, release, teardown, get_parameter_value of a scalar) returns what the table model "
          "predicts, touches no other slot and re-establishes the invariant; hence for every call history. "
+         "A handle solved before keeps exactly the grid and values of the LAST solve (solve_frame jobs of C11 re-run here). "
          "Bounded in table size (calibrations <= 8 slots + one growth step, parameters <= 8 slots with <= 4-5 live "
          "user handles).",
     note="bounded shapes; CORRELATED parameters and vnacal_new_t hash entries only as ghost external holds; "
@@ -92,7 +96,10 @@ CLAIMED["C04"] = dict(
          "executed by a small C interpreter over the same repository text (loops, VLAs, index macros; linear kernels "
          "by exact contract): symbolic proof at n = 1 and n = 2, including agreement with the two-port function at "
          "n = 2; at n = 3 (and 4 in thorough) only exact-rational INSTANCES with structured z0 patterns (polynomial "
-         "identity testing) - labelled bounded, not proof.",
+         "identity testing) - labelled bounded, not proof."
+         " A data-dependent branch in an n-port function (if (cabs(det) < eps) ...) is not refused as outside the subset: both "
+         "outcomes are enumerated and every path must satisfy the relation; an obligation failing on such a path is reported "
+         "only with an input of the REAL function (ctypes) that breaks the relation, otherwise the run is undecided (exit 2).",
     note="exact arithmetic instead of IEEE-754; n >= 3 by instances only; linear kernels by contract (their "
          "numerics: C19); the verifier here is sympy on generated VCs, not CBMC (CBMC cannot decide double-complex "
          "arithmetic, DESIGN 1)",
@@ -122,7 +129,8 @@ CLAIMED["C12"] = dict(
          "injected with -D, no source change); each k is one CBMC proof run with symbolic values checking: no "
          "memory-safety violation, documented failure value, errno ENOMEM, one SYSTEM error report, object well "
          "formed afterwards, the repeated call succeeds silently, the history ends in the fault-free state, and "
-         "nothing remains allocated after the free functions.",
+         "nothing remains allocated after the free functions.  The property-tree scripts include the non-idempotent forms "
+         "(list[+].x=v, list[0+].x=v): a call that fails after the element was added takes it out again, so the repeat does not add a second one.",
     note="quick tier scripts: vnadata (alloc, init, setters incl. both z0 mode switches, resize grow/shrink, free), "
          "vnacal_new (create, new_alloc, add_single_reflect_m, free; K=21), addcal (replace by name, grow the "
          "table), vnacal (create, make_scalar/vector/unknown, delete, free; K=11), vnacal_corr (the same plus make_correlated; K=15); thorough adds add_frequency "
@@ -144,7 +152,8 @@ CLAIMED["C13"] = dict(
          "the original key, with nothing after it.  The descriptor parser on a SAMPLE of concrete descriptors (set, get, "
          "get_subtree, delete, copy; trailing tokens, syntax error, missing key, type mismatch, nested maps, key order, "
          "quoted and escaped keys with trailing spaces, empty containers): documented errno, refused calls change nothing, "
-         "copy preserves empty maps and lists, no leak.",
+         "copy preserves empty maps and lists, no leak; a set without a value, a value for a map/list expression and a "
+         "set_subtree with trailing tokens are refused BEFORE the path is forced into the tree (cases 13, 14).",
     note="descriptor language only sampled (12 concrete histories), vnacal_property_* wrappers not covered; "
          "<ctype.h> by a C-locale table model; vasprintf by contract (formats without conversions); bounded sizes",
     design="DESIGN.md 3 C13, 8.5",
@@ -243,7 +252,10 @@ CLAIMED["C20"] = dict(
          "with and without the measurement-error model; the same holds for E12/UE14 when only ONE column system is "
          "short of equations while another has enough, whatever the linear kernels return (assumed contract: any rank "
          "<= min(m,n), any determinant); unknown standard parameters count as unknowns (real _vnacal_new_solve_auto around "
-         "kernel contracts); the TRL short-cut test classifies any three standards without touching unspecified S cells.",
+         "kernel contracts); the TRL short-cut test classifies any three standards without touching unspecified S cells.  A minimal set of standards "
+         "with a noise model has no V matrices: the auto solver's save/restore helpers cope (v_matrices.*) and the consistency test has nothing "
+         "to reject (pvalue_df0 of C18); the connectivity closure that decides which cells of a multi-port standard give equations is C17's "
+         "job re-run here; a refused standard leaves no parameter behind (hash count, hold count, unknown list).",
     note="histories from a fresh object on concrete small shapes, not an arbitrary well-formed object; 'every "
          "determining set solves and corrects exactly' (numerical rank/accuracy), solve_auto/TRL: NOT covered",
     design="DESIGN.md 3 C20, 8.16",
@@ -259,7 +271,8 @@ CLAIMED["C18"] = dict(
          "computed from that equation's own measured cell (pairwise distinct measurements decide the indexing; "
          "sqrt by an identity stand-in); (c) _vnacal_new_solve_simple weights every coefficient and right-hand "
          "side of an equation with that equation's own weight (marker weights, recording kernel). Noise vectors on "
-         "their own grid pass through the given points: C10.",
+         "their own grid pass through the given points: C10.  Without degrees of freedom (exactly determined system) "
+         "the consistency test rejects nothing: the p-value is 1 for any solved terms (pvalue_df0).",
     note="rejection rates, exact-data equivalence, outliers (statistics) are outside contract verification; "
          "solve_auto's use of the weights is not checked; concrete small histories",
     design="DESIGN.md 3 C18, 8.17",
